@@ -274,6 +274,9 @@ def property_violations(req, line):
         return [("malformed", "no trace: %r" % line[:120])]
     evs, fin = p
     bad = []
+    if any(e and e[0] == "RUNAWAY" for e in evs):
+        bad.append(("no-termination", "the solver was still running after %d calls to the child (bound for iterMax=%d: %d), iter=%s"
+                    % (len(evs) - 1, req.itermax, 24 * (req.itermax + 2) + 24, fin.get("iter"))))
     res = [(k, e) for k, e in enumerate(evs) if e and e[0] == "R"]
     # iteration counter
     if fin.get("iter", 0) > req.itermax:
@@ -288,6 +291,9 @@ def property_violations(req, line):
         tail = evs[-5:]
         shape = len(tail) == 5 and [t[0] for t in tail] == ["R", "N", "S", "C", "OK"]
         if not shape:
+            if res and res[-1][1][2] == "0":
+                bad.append(("success-after-failed-residual",
+                            "success although the last computeResidual (iter=%s) returned false" % res[-1][1][1]))
             bad.append(("success-shape", "success not preceded by residual/norm/report/convergence: %s" % tail))
             return bad
         r, nrm, _, c, _ = tail
@@ -373,10 +379,14 @@ def run(ck):
     from concurrent.futures import ThreadPoolExecutor
     with ThreadPoolExecutor(max_workers=1) as ex:      # harness builds overlap with the Lean builds
         fut = ex.submit(ck.cxx_many, jobs, sanitize=True)
-        driver = ck.lean_exe("c08driver", "TfelVerif/C08/Driver.lean")
-        res = ck.lean(PROPS, PROPS)
+        # one `lake build` (one acquisition of the shared lock) for the theorems and the native model driver
+        res = ck.lean(PROPS + ["c08driver"], PROPS)
+        driver = vlib.LEAN + "/.lake/build/bin/c08driver"
         bins = fut.result()
     ck.lean_violations(res)
+    import os
+    if not os.path.exists(driver):
+        raise vlib.BuildError("lean driver c08driver does not build", res.log[-3000:])
     if not ck.quick:
         for m, msg in ck.leanchecker(PROPS):
             ck.violation("leanchecker:" + m, "leanchecker rejects %s" % m, {"log": msg}, False)
@@ -404,7 +414,7 @@ def run(ck):
 
     def both(s):
         lines = [r.line for r in by_solver[s]]
-        return run_lines(ck, [bins["c08_%s" % s]], lines, 1500), run_lines(ck, [driver], lines, 1500)
+        return run_lines(ck, [bins["c08_%s" % s]], lines, 900), run_lines(ck, [driver], lines, 900)
 
     with ThreadPoolExecutor(max_workers=6) as ex:
         outputs = dict(zip(SOLVERS, ex.map(both, SOLVERS)))
@@ -460,7 +470,10 @@ def run(ck):
                 if not viol:
                     ea, em = a.split(";"), m.split(";")
                     d = next((i for i in range(min(len(ea), len(em))) if ea[i] != em[i]), min(len(ea), len(em)))
-                    control = [x.split()[0] for x in ea] != [x.split()[0] for x in em]
+                    ka = ea[d].split()[0] if d < len(ea) else "-"
+                    km = em[d].split()[0] if d < len(em) else "-"
+                    # first difference inside a solver's computeNewCorrection (or a value it produced), or in the loops
+                    control = not (ka == km or {ka, km} <= {"U", "L", "M", "K", "D"})
                     site = BASE if control else SITE[s]
                     report("corr:%s:%s" % (site, "control-flow" if control else "values"),
                            "trace of the real %s solver differs from the model at event %d (%s vs %s); the property's predicate still holds on the implementation trace"
